@@ -757,7 +757,56 @@ def r4_6_fresh_yield(rep, facts):
     rep.floor("R4.6", "yield paths of request::Parser::parse", n, 1)
 
 
+def r4_7_exact_names(rep, facts):
+    """R4.7: which variables a GetValues body asks for is decided by *exact* name match: ProtocolVariables::parse_name reaches the flag set only
+    through the generated `from_name` (one flag per exact spelling).  Every other way into the type -- the flags' text parser (`str::parse` /
+    `FromStr`: trims, accepts `A | B` lists and `0x..` literals), `from_bits*`, a struct literal -- makes names that are not FastCGI
+    variables elicit entries nobody asked for."""
+    PN = "protocol::vars::ProtocolVariables::parse_name"
+    b = facts.body(PN)
+
+    def paths_in(x, out):
+        if isinstance(x, dict):
+            for k, v in x.items():
+                if k in ("path", "fn") and isinstance(v, str):
+                    out.add(F.norm(v))          # a callee, or a function item passed on (`.and_then(Self::from_name)`)
+                elif k == "adt" and isinstance(v, str) and x.get("k") == "agg":
+                    out.add("construct " + F.norm(v))
+                paths_in(v, out)
+        elif isinstance(x, list):
+            for v in x:
+                paths_in(v, out)
+    refs = set()
+    n_bodies = 0
+    for bb in facts.bodies:
+        if bb.promoted or not (bb is b or bb.path.startswith(b.path + "::{closure")):
+            continue
+        n_bodies += 1
+        paths_in(bb.blocks, refs)
+    # helpers introduced by a later edit are looked into
+    for r_ in list(refs):
+        if facts.is_new_helper(r_):
+            for hb in facts.by_npath.get(r_, []):
+                paths_in(hb.blocks, refs)
+    lookups = {r_ for r_ in refs if r_.split("::")[-1] == "from_name" and r_.startswith("protocol::vars::")}
+    foreign = {r_ for r_ in refs if (r_.startswith("protocol::vars::") and r_ not in lookups and not facts.is_new_helper(r_) and r_ != PN)
+               or r_.endswith("str::parse") or "FromStr" in r_ or r_.startswith("construct protocol::vars::") or "bitflags::parser" in r_}
+    if foreign:
+        rep.violation("R4.7", "parse_name/exact-match", "a queried name reaches the variable set through %s, not only through the exact-name lookup from_name" % sorted(foreign), b.loc())
+    elif not lookups:
+        rep.undecidable("R4.7", "parse_name/exact-match", "parse_name does not use the generated from_name lookup (references: %s)" % sorted(refs), b.loc())
+    else:
+        rep.ok("R4.7", "parse_name/exact-match", "a name selects a variable only through from_name (exact spelling); %d body/bodies scanned" % n_bodies, b.loc())
+    # both parsers collect the queried variables through parse_name and nothing else
+    n = 0
+    for (cb, bi, t, nm) in F.calls_to(facts, lambda x: x == PN):
+        n += 1
+    if n < 1:
+        rep.undecidable("R4.7", "parse_name/callers", "no caller of parse_name found")
+
+
 def run(rep, facts):
+    rep.rule("R4.7", "the variables a GetValues query selects are found by exact name match only: parse_name reaches ProtocolVariables through the generated from_name lookup, never through the flags' text parser, from_bits or a literal")
     rep.rule("R4.6", "every call of request::Parser::parse clears the reply buffer before it drives the state machine or yields: the bytes a call reports are the bytes it appended, and no reply is handed out twice (R3.2)")
     rep.rule("R4.5", "outside the header dispatch the stream parser's record state is only demoted Stream -> Skip (a pending GetValues body cannot be discarded)")
     rep.rule("R4.1", "the decision tables of the three header-dispatch sites equal the FastCGI specification oracle row by row: who is answered, with which record / status / id, exactly one append per owed row and none otherwise, next state, consumption of the header, sibling agreement")
@@ -771,6 +820,7 @@ def run(rep, facts):
     check.guard(rep, "R4.4", r4_4_counts, facts)
     check.guard(rep, "R4.5", r4_5_state_writers, facts)
     check.guard(rep, "R4.6", r4_6_fresh_yield, facts)
+    check.guard(rep, "R4.7", r4_7_exact_names, facts)
 
 
 def main(rep, tier):
